@@ -512,7 +512,9 @@ _branch_variant = {
 }
 
 
-def try_replace_call_with_branch(node: nodes.Call, else_label: str) -> bool:
+def try_replace_call_with_branch(
+    node: nodes.Call, else_label: str, negate: bool = False
+) -> bool:
     from .types import IC10Operand
 
     fname = node.func.as_string()
@@ -521,7 +523,8 @@ def try_replace_call_with_branch(node: nodes.Call, else_label: str) -> bool:
         instr = data.code[""][-1]
         if instr.op != fname:
             return False
-        instr.op = _branch_variant[fname]
+        # 'if not sdse(d)' must skip the body when the device IS set
+        instr.op = "b" + fname[1:] if negate else _branch_variant[fname]
         instr.output = None
         instr.inputs.append(IC10Operand(else_label))
         return True
